@@ -479,9 +479,22 @@ def executed_paths(model, run):
 FILTER_ALPHABET = ["ign", "^zoo::f00", "a_", "g_t", "inherited", "::1$", "m::", "(TA|x)$", "zoo::nest::a::same", "Shown As"]
 
 
+# Patterns that match an inner node (a module path, a group's Rust name that its display name
+# replaces, the crate root) but no complete case path below it: as skip filters they must exclude
+# nothing, as positive filters select nothing.
+INNER_ONLY = ["^zoo$", "outer$", "ign::ig$", "f002::outer::inner", "B_group", "ig_attr", "^zoo::nest::a$", "r#type"]
+
+
 def filter_sets(tier, model):
     sets = [((), (), False)]
     alpha = FILTER_ALPHABET
+    for f in INNER_ONLY:
+        assert not any(re.search(f, c["path"]) for c in model["cases"]), "INNER_ONLY pattern %r matches a case path" % f
+        sets.append(((), (f,), False))
+        sets.append(((f,), (), False))
+    sets.append((("f002", "ign"), ("outer$", "ign::ig$"), False))
+    sets.append((("srt",), ("B_group", "^zoo$"), False))
+    sets.append(((), tuple(INNER_ONLY), False))
     for f in alpha:
         sets.append(((f,), (), False))
         sets.append(((), (f,), False))
@@ -556,7 +569,7 @@ def check_c13(tier, seed, chk):
         outcomes.add(len(sel))
     res["distinct_outcomes"] = len(outcomes)
     res["samples"] = [{"filter_set": {"positive": list(s[0]), "skip": list(s[1]), "exact": s[2]}, "selected_cases": len(selected(cases, *s))} for s in sets[1:40:9]]
-    res["bounds"] = {"filter_sets": len(sets), "filter_alphabet": FILTER_ALPHABET, "cases": len(cases), "mode": "--test --include-ignored", "tier_zoo": tier}
+    res["bounds"] = {"filter_sets": len(sets), "filter_alphabet": FILTER_ALPHABET, "inner_only_patterns": INNER_ONLY, "cases": len(cases), "mode": "--test --include-ignored", "tier_zoo": tier}
     res["wall_s"] = time.time() - t0
     return [res]
 
@@ -1171,20 +1184,29 @@ def check_c16(tier, seed, chk):
     for fam in fams + [None]:
         for sort in SORTS:
             for action, argv in (("test", ["--test"]), ("list", ["--list"])):
-                jobs.append((fam, sort, action, argv))
+                jobs.append((fam, sort, action, argv, "none"))
         if fam == "srt":
             for sort in SORTS:
-                jobs.append((fam, sort, "bench", ["--bench", "--timer", "tsc", "--sample-count", "1", "--sample-size", "1"]))
+                jobs.append((fam, sort, "bench", ["--bench", "--timer", "tsc", "--sample-count", "1", "--sample-size", "1"], "none"))
+        if fam in ("srt", "ign"):
+            # ignored benchmarks that are run anyway are ordered like any other
+            for sort in SORTS:
+                for flag, fargv in FLAGS[1:]:
+                    jobs.append((fam, sort, "test", ["--test"] + fargv, flag))
+                    if fam == "srt":
+                        jobs.append((fam, sort, "list", ["--list"] + fargv, flag))
 
     def one(job):
-        fam, sort, action, argv = job
+        fam, sort, action, argv, flag = job
         flt = ["^zoo::%s::" % fam] if fam else ["--skip", "^zoo::pnc"]
         return job, run_zoo(binary, argv + [sort[0], sort[1]] + flt, want_stats=False, clock=CLOCK, timeout=600)
 
-    for (fam, sort, action, argv), r in pmap(one, jobs):
+    for (fam, sort, action, argv, flag), r in pmap(one, jobs):
         count_run(res, r, len(r.out.splitlines()))
         desc = "zoo %s %s %s %s" % (" ".join(argv), sort[0], sort[1], fam or "(whole zoo)")
         sig = {"check": "printed-order", "sort": "%s %s" % sort, "action": action}
+        if flag != "none":
+            sig["ignored_flag"] = flag
         if r.rc != 0:
             violation(res, dict(sig, **{"class": "crash"}), "%s exited with %s: %s" % (desc, r.rc, r.err[-400:]), r)
             continue
@@ -1193,11 +1215,11 @@ def check_c16(tier, seed, chk):
         if errors:
             violation(res, dict(sig, **{"class": "malformed"}), "%s: output cannot be parsed: %s" % (desc, errors[:2]), r)
             continue
-        want_root = expected_tree(model, sel, action, "none", sort[1], sort[0] == "--sortr", {"sample_count": 1, "sample_size": 1} if action == "bench" else None)
+        want_root = expected_tree(model, sel, action, flag, sort[1], sort[0] == "--sortr", {"sample_count": 1, "sample_size": 1} if action == "bench" else None)
         compare_tree(res, sig, desc, r, roots, want_root, action == "bench")
     res["distinct_outcomes"] = len(jobs)
     res["samples"] = [{"families": fams[:6], "sorts": ["%s %s" % s_ for s_ in SORTS], "jobs": len(jobs)}]
-    res["bounds"] = {"families": len(fams) + 1, "sorts": 6, "actions": ["test", "list", "bench (sort family)"], "tier_zoo": tier,
+    res["bounds"] = {"families": len(fams) + 1, "sorts": 6, "actions": ["test", "list", "bench (sort family)", "test/list with --ignored and --include-ignored (sort and ignore families)"], "tier_zoo": tier,
                      "sort_family": "scrambled declaration order: benches b10/b2/A1, a module, a group with a custom display name, args lists (ints, negatives, floats, strings), generic consts / types / types x consts"}
     res["wall_s"] = time.time() - t0
     return [res]
